@@ -238,6 +238,13 @@ class Atoms:
             q = arg / a
             if q.is_const():
                 return f"{kind}#{i}", q.const_value()
+            # the quotient of two rational functions is not reduced: arg == c * a  iff  arg.n * a.d == c * a.n * arg.d as polynomials
+            lhs, rhs = arg.n * a.d, a.n * arg.d
+            if lhs.t and rhs.t and set(lhs.t) == set(rhs.t):
+                k0 = next(iter(sorted(lhs.t, key=str)))
+                c = lhs.t[k0] / rhs.t[k0]
+                if all(lhs.t[k_] == c * rhs.t[k_] for k_ in lhs.t):
+                    return f"{kind}#{i}", Fr(c)
         return None, Fr(0)
 
     def _new(self, kind: str, arg: Rat) -> str:
